@@ -669,12 +669,17 @@ func builtinArrayReduceRight(call FunctionCall) Value {
 			index := length - 1
 			var accumulator Value
 			if !initial {
+				found := false
 				for ; index >= 0; index-- {
 					if key := arrayIndexToString(index); thisObject.hasProperty(key) {
 						accumulator = thisObject.get(key)
 						index--
+						found = true
 						break
 					}
+				}
+				if !found {
+					panic(call.runtime.panicTypeError("Array.reduceRight of an array without elements and no initial value"))
 				}
 			} else {
 				accumulator = start
